@@ -68,14 +68,15 @@ func init() {
 		Technique: "typed request fuzzing by reflection over functions.Functions(), through the proto path into grpc service.Evaluate; panics recovered at the caller, hangs decided by goroutine quiescence",
 		Rule: "case = one request: a call of a library function (chosen uniformly over functions.Functions()) whose arguments are drawn per parameter type from pools of " +
 			"well-formed and hostile expression trees (depth <= 3: literals, calls, lambdas, collections; absent/odd IDs, empty collections, negative counts, NaN, wrong arity, " +
-			"type confusion with p=0.1 per argument), optionally wrapped in a consumer; world = empty | small basic | overlay with 0-3 edits; cores 1|2; " +
+			"type confusion with p=0.1 per argument), optionally wrapped in a consumer; world = empty | small basic | overlay with 0-3 edits; cores 1|2; one case in four is a session (1-4 earlier change requests to the same service: " +
+			"collections, relations and points added and then replaced by shorter / longer versions, tag edits, random changes; the request then often reads what they touched); " +
 			"distance/level parameters bounded (<= 2 km, level <= 19); 1 case in 8 is the labelled extreme sub-case (|x| up to 1e300/Inf, MaxInt64); " +
 			"distinct = distinct (world, request text); non-trivial = the request reached the VM (decoded and compiled by the server)",
 		Assumptions: []string{"FileIOAllowed=false: functions that touch the file system return before doing so",
 			"a panic observed at the caller of service.Evaluate is what the gRPC server would die of (no recover in the handler path)"},
 		Quick: 24000, Thorough: 1000000,
 		CaseCap:  60 * time.Second,
-		Required: []string{"outcome_ok", "outcome_error", "world_empty", "world_basic", "world_overlay", "fn_ok:top", "fn_ok:histogram", "fn_ok:take", "fn_ok:find", "fn_ok:map", "extreme_cases", "wrapped"},
+		Required: []string{"outcome_ok", "outcome_error", "world_empty", "world_basic", "world_overlay", "fn_ok:top", "fn_ok:histogram", "fn_ok:take", "fn_ok:find", "fn_ok:map", "extreme_cases", "wrapped", "sessions", "session_replaced_by_shorter"},
 		Run: func(c *core.Ctx) {
 			r := c.R
 			ws, wname := c23worlds(r.Fork())
@@ -242,6 +243,41 @@ func init() {
 
 			var lock sync.RWMutex
 			service := b6grpc.NewB6Service(ws, api.Options{Cores: cores}, &lock)
+			// a session: one case in four sends earlier requests to the same service, which change the
+			// world the request then runs against - in particular features that are added and then
+			// replaced by a shorter or longer version of themselves
+			if c.Index%4 == 1 {
+				prelude := c23prelude(r.Fork(), g)
+				var texts []string
+				for _, pe := range prelude {
+					text := "(unprintable)"
+					core.Protect(func() { text = pe.String() })
+					texts = append(texts, text)
+					var pp *pb.NodeProto
+					var err error
+					if p, _, _, _ := core.Protect(func() { pp, err = pe.ToProto() }); p || err != nil {
+						continue // the client cannot encode it
+					}
+					preq := &pb.EvaluateRequestProto{Request: pp, Version: b6.ApiVersion}
+					if raw, err := protoRoundTrip(preq); err == nil {
+						preq = raw
+					}
+					if p, cl, fr, st := core.Protect(func() {
+						ctx, cancel := context.WithCancel(context.Background())
+						defer cancel()
+						service.Evaluate(ctx, preq)
+					}); p {
+						c.Count("outcome_panic")
+						c.Violate("session:panic@"+fr+":"+cl, map[string]any{"earlier_requests": texts, "stack": clipStack(st)}, "request %d of a session (%s): service.Evaluate panicked: %s", len(texts), text, cl)
+						return
+					}
+				}
+				witness["earlier_requests"] = texts
+				c.Count("sessions")
+				if g.shorter {
+					c.Count("session_replaced_by_shorter")
+				}
+			}
 			var rerr error
 			var panicked bool
 			var class, frame, stack string
